@@ -115,12 +115,14 @@ def composition_records(ck, rnd, n):
         steps = rnd.sample(['copy', 'pickle', 'elim', 'resolve', 'elim', 'copy'], rnd.randint(2, 5))
         cur = c0
         for s in steps:
-            def tf(c, s=s, tlib=tlib):
+            inplace = rnd.random() < 0.5       # transform the very object the previous step returned (a copy, an unpickled circuit)
+
+            def tf(c, s=s, tlib=tlib, inplace=inplace):
                 if s == 'copy':
                     return c.copy()
                 if s == 'pickle':
                     return pickle.loads(pickle.dumps(c))
-                c2 = c.copy()
+                c2 = c if (inplace and c is not c0) else c.copy()
                 if s == 'elim':
                     c2.eliminate_1to1_forks()
                 else:
